@@ -177,6 +177,7 @@ type Sim struct {
 	Replay     []uint32 // if non-nil, choices are taken from here
 	replayPos  int
 	Tape       []uint32
+	Widths     []int // number of alternatives at each recorded decision
 	StepBudget int
 	Steps      int
 	IOOps      int
@@ -598,6 +599,7 @@ func (s *Sim) draw(n int, f func() int) int {
 		}
 	}
 	s.Tape = append(s.Tape, uint32(c))
+	s.Widths = append(s.Widths, n)
 	return c
 }
 
@@ -612,6 +614,7 @@ func (s *Sim) choose(P []*Task) int {
 
 // Result of one simulated run.
 type Result struct {
+	Widths     []int
 	Violations []Violation
 	Probes     map[string]int
 	Tape       []uint32
@@ -641,6 +644,7 @@ func RunInBubble(t *testing.T, s *Sim, body func()) (res Result) {
 	res.Violations = s.Violations
 	res.Probes = s.Probes
 	res.Tape = s.Tape
+	res.Widths = s.Widths
 	res.Steps = s.Steps
 	res.IOOps = s.IOOps
 	res.Events = s.seq
